@@ -135,13 +135,30 @@ def vols_arg(cvol, ints=False):
     """Concrete volume argument; with ints=True whole numbers are passed as Python ints (and all-integer
     2-D arrays with an integer dtype) - the same volumes in another presentation."""
     t = cvol["t"]
+
+    def f32_exact(xs):
+        return all(isinstance(x, float) and math.isfinite(x) and float(np.float32(x)) == x for x in xs)
+
     if t == "scalar":
-        return _as_int(cvol["v"]) if ints else cvol["v"]
+        if not ints:
+            return cvol["v"]
+        v = _as_int(cvol["v"])
+        # a fractional scalar comes as a numpy float64 scalar (what indexing an array gives)
+        return v if isinstance(v, int) or not isinstance(v, float) else np.float64(v)
     if t == "list":
-        return [_as_int(x) for x in cvol["v"]] if ints else list(cvol["v"])
+        if not ints:
+            return list(cvol["v"])
+        vals = [_as_int(x) for x in cvol["v"]]
+        if all(isinstance(x, int) for x in vals):
+            return np.array(vals, dtype=np.int64) if len(vals) % 2 == 0 else vals
+        if f32_exact(cvol["v"]) and len(vals) % 2 == 0:
+            return np.array(cvol["v"], dtype=np.float32)  # the same numbers in single precision
+        return vals
     flat = [x for row in cvol["v"] for x in row]
     if ints and all(isinstance(_as_int(x), int) for x in flat):
         return np.array([[int(x) for x in row] for row in cvol["v"]], dtype=int)
+    if ints and f32_exact(flat):
+        return np.array(cvol["v"], dtype=np.float32)
     return np.array(cvol["v"], dtype=float)
 
 
